@@ -16,7 +16,7 @@ class C05(InterpProp):
             'non-trivial = a run in which ≥2 tickets were pending at once with equal due time or of both classes')
 
     def knobs(self, rnd, tier):
-        return gen.Knobs(sends=0.5, p_eventless=0.15, max_states=rnd.choice([6, 10, 14]), p_guard=0.35)
+        return gen.Knobs(sends=0.5, p_eventless=0.15, max_states=rnd.choice([6, 10, 14]), p_guard=0.35, clock_moves=0.4)
 
     def make_ops(self, rnd, knobs, sc):
         ops = []
@@ -31,6 +31,10 @@ class C05(InterpProp):
                     data.append(['delay', d])
                     dues.append(t + d)
                 name = rnd.choice(gen.EVENTS) if rnd.random() < 0.85 else 'zz'
+                if rnd.random() < knobs.clock_moves:
+                    # the clock moves between two steps: the due time counts from the *interpreter's* time
+                    t += rnd.choice([1, 2, 3])
+                    ops.append(['setclock', 0, t])
                 ops.append(['queue', 0, {'ev': name, 'data': data}])
             elif c < 0.5 and knobs.flags:
                 ops.append(['setvar', 0, 'v%d' % rnd.randrange(knobs.flags), rnd.random() < 0.5])
